@@ -386,7 +386,7 @@ class EncRing:
         out = []
         for ob, oref, oc in self.ring:
             self.checks += 1
-            if bytes(ob) != oref:
+            if ob != oref:
                 out.append(("C04:history:%s:v%d:enc-aliasing" % (oc["cls"], oc["ver"]),
                             "the object gen_msg() returned for an earlier message held the layout's octets (%s..., %d octets) and holds "
                             "%s... (%d octets) after a later gen_msg()" % (oref[:12].hex(), len(oref), bytes(ob[:12]).hex(), len(ob)),
